@@ -55,6 +55,8 @@ type StreamSpec struct {
 	Default    bool   `json:"default"`
 	SegDurMs   int    `json:"segDurMs"`
 	HintRanges bool   `json:"hintRanges"` // Low-Latency: parts are byte ranges of one file (the preload hint carries BYTERANGE-START / -LENGTH)
+	AusPerPES  int    `json:"ausPerPES"`  // MPEG-TS: up to this many consecutive audio access units share one PES (0 / 1: one each)
+	SegDelayMs int    `json:"segDelayMs"` // the server answers segment requests of this stream after this many ms
 	UriStyle   string `json:"uriStyle"`   // with Scenario.Dirs: rel ("../media/x") | abspath ("/live/media/x") | absurl | sub ("m/x")
 	LL         bool   `json:"ll"`         // Low-Latency: SERVER-CONTROL CAN-BLOCK-RELOAD + parts + preload hint
 	CanSkip    bool   `json:"canSkip"`    // CAN-SKIP-UNTIL advertised
@@ -64,6 +66,10 @@ type StreamSpec struct {
 type Fault struct {
 	Req  int    `json:"req"`
 	Kind string `json:"kind"` // status | transport | stall
+	// targeted form (On != ""): the Nth request of kind On (pl | init | seg | part) of stream S, whatever its global index
+	On  string `json:"on"`
+	S   int    `json:"s"`
+	Nth int    `json:"nth"`
 }
 
 // Scenario is one client run.
@@ -141,7 +147,7 @@ func (st *streamState) segment(msn int) ([]byte, error) {
 	var b []byte
 	var err error
 	if st.spec.Container == "ts" {
-		b, err = SegTS(st.spec.Tracks, units)
+		b, err = SegTSGrouped(st.spec.Tracks, units, st.spec.AusPerPES)
 	} else {
 		fr := st.spec.Frags
 		if fr <= 1 {
@@ -523,6 +529,21 @@ func (r *runner) handle(i int, req *http.Request) (Resp, string, map[string]inte
 	default:
 		resp.Status = 404
 	}
+	for _, f := range r.sc.Faults {
+		if f.On != "" && f.On == kind && info["s"] == f.S {
+			key := fmt.Sprintf("f%d/%s", f.S, kind)
+			if r.seen[key] == f.Nth {
+				fault = f.Kind
+				resp.Fault = f.Kind
+			}
+			r.seen[key]++
+		}
+	}
+	if kind == "seg" {
+		if j, ok := info["s"].(int); ok && j >= 0 && j < len(r.streams) && r.streams[j].spec.SegDelayMs > 0 {
+			resp.Delay += time.Duration(r.streams[j].spec.SegDelayMs) * time.Millisecond
+		}
+	}
 	if r.sc.Mut != "" && fault == "" && kind == r.sc.MutKind && info["s"] == r.sc.MutS {
 		key := fmt.Sprintf("%d/%s", r.sc.MutS, kind)
 		if r.seen[key] == r.sc.MutNth {
@@ -669,7 +690,9 @@ func workingGoroutines() int {
 func Run(w *trace.W, idx int, sc Scenario) error {
 	r := &runner{sc: sc, w: w, faults: map[int]string{}, seen: map[string]int{}}
 	for _, f := range sc.Faults {
-		r.faults[f.Req] = f.Kind
+		if f.On == "" {
+			r.faults[f.Req] = f.Kind
+		}
 	}
 	for _, s := range sc.Streams {
 		st := &streamState{spec: s, segs: map[int][]byte{}, ranges: map[int][2]int{}, dirs: sc.Dirs}
@@ -737,7 +760,7 @@ func Run(w *trace.W, idx int, sc Scenario) error {
 				cn = "opus"
 			}
 			tl = append(tl, trace.M{"codec": cn, "rate": t.ClockRate, "name": t.Name, "lang": t.Language, "def": b2i(t.IsDefault)})
-			cb := func(pts, dts int64, data [][]byte) {
+			cb := func(pts, dts int64, data [][]byte, sub int) {
 				if ended.Load() {
 					r.cbAfter.Add(1)
 				}
@@ -758,7 +781,7 @@ func Run(w *trace.W, idx int, sc Scenario) error {
 						same = 1
 					}
 				}
-				ev := trace.M{"ev": "data", "t": ti + 1, "st": tt, "id": id, "idok": b2i(ok), "same": same, "pts": pts, "dts": dts, "abs": int64(-1)}
+				ev := trace.M{"ev": "data", "t": ti + 1, "st": tt, "id": id, "idok": b2i(ok), "same": same, "pts": pts, "dts": dts, "abs": int64(-1), "sub": sub}
 				if at, ok := client.AbsoluteTime(t); ok {
 					ev["abs"] = at.Sub(t0).Microseconds()
 				}
@@ -769,11 +792,16 @@ func Run(w *trace.W, idx int, sc Scenario) error {
 			}
 			switch t.Codec.(type) {
 			case *codecs.H264:
-				client.OnDataH26x(t, func(pts, dts int64, au [][]byte) { cb(pts, dts, au) })
+				client.OnDataH26x(t, func(pts, dts int64, au [][]byte) { cb(pts, dts, au, 0) })
 			case *codecs.MPEG4Audio:
-				client.OnDataMPEG4Audio(t, func(pts int64, aus [][]byte) { cb(pts, pts, aus) })
+				client.OnDataMPEG4Audio(t, func(pts int64, aus [][]byte) {
+					// one callback may carry several access units (one MPEG-TS PES): only the first has a time of its own
+					for i, a := range aus {
+						cb(pts, pts, [][]byte{a}, i)
+					}
+				})
 			case *codecs.Opus:
-				client.OnDataOpus(t, func(pts int64, ps [][]byte) { cb(pts, pts, ps) })
+				client.OnDataOpus(t, func(pts int64, ps [][]byte) { cb(pts, pts, ps, 0) })
 			}
 		}
 		r.emit(trace.M{"ev": "tracks", "list": tl})
